@@ -156,6 +156,7 @@ def check(program: Program, run: Run) -> None:
     run.rule("R2 literal ( ) [ ] opened by a renderer are closed by it on every path")
     run.rule("R3 no-kind / INSERT without rows or select / UPDATE without SET render '' in every builder class; DDL/LOAD builders likewise")
     run.rule("R4 every (builder method, foreign clause attribute read, attribute written) triple is in the reviewed table")
+    run.rule("R6 two different builder methods never plainly overwrite the same attribute with different values (last-call-wins), except reviewed same-clause setters")
     run.rule("R5 a repeatable (accumulating) builder writes every attribute monotonically: constant, accumulate, or derived from its own old value")
     run.exhaustive = True
     kinds = kind_states(program)
@@ -317,6 +318,7 @@ class _Dep:
         self.pairs: set = set()
         self.memo: dict = {}
         self.forms: dict = {}      # attr -> set of write forms
+        self.consts: dict = {}     # attr -> set of constants assigned
         self.form_sites: dict = {}
 
     def func(self, f: FuncInfo, ctrl: frozenset, arg_deps: frozenset, depth: int = 0):
@@ -352,6 +354,8 @@ class _Dep:
                 elif attr in ctrl_now:
                     form = "init"
             self.forms.setdefault(attr, set()).add(form)
+            if form == "const" and node is not None and isinstance(getattr(node, "value", None), ast.Constant):
+                self.consts.setdefault(attr, set()).add(repr(node.value.value))
             if form == "overwrite" and node is not None:
                 self.form_sites.setdefault(attr, (f, node))
 
@@ -444,6 +448,18 @@ OVERWRITE_OK = {
 }
 
 
+# pairs of builder methods that set the *same* clause (last call wins by design); one reason each
+SAME_CLAUSE_SETTERS = {
+    ("_limit", frozenset(("limit", "slice"))): "q[a:b] is shorthand for offset(a).limit(b-a): same LIMIT clause",
+    ("_limit", frozenset(("limit", "fetch_next"))): "fetch_next is MSSQL's spelling of limit: same clause",
+    ("_limit", frozenset(("slice", "fetch_next"))): "fetch_next is MSSQL's spelling of limit: same clause",
+    ("_offset", frozenset(("offset", "slice"))): "q[a:b] is shorthand for offset(a).limit(b-a): same OFFSET clause",
+    ("_replace", frozenset(("insert", "replace"))): "insert()/replace() choose the verb of one INSERT clause (same clause, last verb wins)",
+    ("frame", frozenset(("rows", "range"))): "rows()/range() set the one window frame; a second call raises (C14 guard table)",
+    ("bound", frozenset(("rows", "range"))): "rows()/range() set the one window frame; a second call raises (C14 guard table)",
+}
+
+
 def _accumulation(program: Program, run: Run) -> None:
     """R5: a builder method that accumulates into its clause (append / &= / x = x + ...) is called repeatedly by design;
     every other attribute it writes must be written monotonically (constant, or derived from its own old value) -- an
@@ -483,6 +499,52 @@ def _accumulation(program: Program, run: Run) -> None:
                                 f"what an earlier {nm}() call recorded in {a} is discarded, so repeated calls do not accumulate and the call order matters",
                                 where=site[0].loc(site[1]) if site else f.loc(), rule="R5")
     run.analysed["accumulating_writes"] = n
+
+    # R6: two different builder methods of one class that plainly overwrite the same attribute do not commute (the last
+    # call wins) unless both write the same constant.  Pairs that set the *same* clause are the documented last-wins
+    # setters and are listed with their reason.
+    seen6 = set()
+    npairs = 0
+    for c in program.all_classes():
+        names = []
+        for k in c.mro:
+            for nm, f in k.methods.items():
+                if f.is_builder and nm not in names:
+                    names.append(nm)
+        if len(names) < 2:
+            continue
+        writers: dict = {}
+        for nm in names:
+            f = c.resolve(nm)
+            d = _Dep(program, c)
+            d.func(f, frozenset(), frozenset())
+            for a, fs in d.forms.items():
+                if fs & {"overwrite", "const"} and not fs & {"mutate", "aug", "reads-self", "init"}:
+                    writers.setdefault(a, {})[nm] = (f, frozenset(d.consts.get(a, ())) if fs == {"const"} else None, d.form_sites.get(a))
+        for a, ws in sorted(writers.items()):
+            ms = sorted(ws)
+            for i, m1 in enumerate(ms):
+                for m2 in ms[i + 1:]:
+                    f1, c1, _ = ws[m1]
+                    f2, c2, _ = ws[m2]
+                    key = (f1.qualname, f2.qualname, a)
+                    if key in seen6:
+                        continue
+                    seen6.add(key)
+                    npairs += 1
+                    same_const = c1 is not None and c1 == c2 and len(c1) == 1
+                    reviewed = SAME_CLAUSE_SETTERS.get((a, frozenset((m1, m2))))
+                    ok = same_const or reviewed is not None
+                    run.ob("C13/R6 two builder methods overwriting one attribute write the same constant or set the same clause", f"{f1.qualname}+{f2.qualname}:{a}", ok,
+                           detail=reviewed or (f"both write {sorted(c1)[0]}" if same_const else f"{m1} writes {sorted(c1) if c1 else 'a computed value'}, {m2} writes {sorted(c2) if c2 else 'a computed value'}"),
+                           where=f1.loc())
+                    if not ok:
+                        run.finding(f"C13/last-call-wins:{f1.cls.qualname if f1.cls else c.qualname}:{a}:{m1}+{m2}",
+                                    f"{m1}() and {m2}() both overwrite {a} with different values: whichever is called last wins, so the two calls do not commute "
+                                    "(state addressed by different builder calls must be kept apart and resolved at render time)", where=f2.loc(), rule="R6")
+    run.analysed["overwrite_pairs"] = npairs
+    if npairs < 5:
+        raise AnalysisError(f"instance count below floor: overwrite pairs {npairs}")
 
 
 def _couplings(program: Program, run: Run) -> None:
